@@ -1,7 +1,7 @@
 """C10  stop is never lost and go is never dropped, under any timing  (DESIGN 3, C10)."""
 from . import engine, mir
 from . import common as C
-from .mir import expr_str, walk, callee_is, const_int
+from .mir import expr_str, walk, callee_is, const_int, op_place
 
 PROP = "C10"
 EXEC = "uci::Uci::execute_command"
@@ -215,7 +215,37 @@ def rule_stop_arm(ctx):
               bad_what="the Stop arm can return Err (lines %s)" % [b.blocks[x].term["line"] for x in sorted(errs)])
 
 
-def flag_load_guards(ix, body, protect):
+def _is_flag_load(e):
+    return (e[0] == "call" and e[1] == C.ATOMIC_LOAD
+            and any(isinstance(x, tuple) and x[0] == "field" and "search_running" in x[2:] for x in walk(e)))
+
+
+def _wrapper_true_implies_flag(ix, key, depth):
+    """`key` is a crate predicate (`fn search_in_progress(&self) -> bool`) that can only return true on a path where
+    the search_running flag was loaded as true."""
+    h = ix.bodies.get(key) if isinstance(key, str) else None
+    if h is None or not h.locals or h.locals[0]["ty"] != "bool":
+        return False
+    sym = mir.Sym(h, ix)
+    defs = [d for d in h.defs().get(0, [])]
+    if not defs:
+        return False
+    for (db, di, rv) in defs:
+        if rv.get("k") in ("partial",):
+            return False
+        v = sym.rvalue(rv) if rv.get("k") != "call" else ("call", mir.strip_generics(mir.callee_name(rv["t"])), tuple(sym.operand(a) for a in rv["t"]["args"]))
+        if v == ("const", 0, "bool"):
+            continue
+        if _is_flag_load(v) or (v[0] == "call" and _wrapper_true_implies_flag(ix, v[1], depth + 1)):
+            continue
+        guards = set(flag_load_guards(ix, h, {db}, depth + 1))
+        if guards and db not in h.reachable_from(0, removed=guards, include_start=True):
+            continue
+        return False
+    return True
+
+
+def flag_load_guards(ix, body, protect, _depth=0):
     """Blocks switching on a load of the search_running flag whose flag==false edge cannot reach `protect`."""
     sym = mir.Sym(body, ix)
     out = []
@@ -226,9 +256,7 @@ def flag_load_guards(ix, body, protect):
         if sc is None:
             continue
         e, neg = sc
-        if not (e[0] == "call" and e[1] == C.ATOMIC_LOAD):
-            continue
-        if not any(isinstance(x, tuple) and x[0] == "field" and "search_running" in x[2:] for x in walk(e)):
+        if not (e[0] == "call" and (_is_flag_load(e) or (_depth < 2 and _wrapper_true_implies_flag(ix, e[1], _depth)))):
             continue
         f, tr = C.switch_edges(blk.term)
         false_edges = tr if neg else f
@@ -367,7 +395,22 @@ def rule_no_swallow(ctx):
                 if cb and any(callee_is(tt, "logger::Logger::elog", "logger::Logger::log") for _b, tt in cb.calls()):
                     ok = True
                     ctx.functions.add(ck)
-        ctx.check(ok, "%s:execute-error-logged" % UCI_LOOP, "an Err from execute_command is reported by a logging closure", b.where(eb),
+        if not ok and consumer and consumer["k"] == "switch" and nxt is not None:
+            # `if let Err(e) = ... { log }` / `match`: from the Err edge, the next read is reached only through a log call
+            dty = C.discr_type_of_switch(b, nxt)
+            sd = b.single_def(op_place(consumer["discr"])["l"]) if op_place(consumer["discr"]) is not None else None
+            on_result = sd is not None and sd[2].get("k") == "discr" and sd[2]["p"]["l"] == t["dest"]["l"]
+            if dty and dty.startswith("std::result::Result") and on_result:
+                explicit = [a[0] for a in consumer["arms"]]
+                err_targets = [a[1] for a in consumer["arms"] if a[0] == 1]
+                if 1 not in explicit and 0 in explicit:
+                    err_targets.append(consumer["otherwise"])
+                verdicts = []
+                for et in err_targets:
+                    reach = b.reachable_from(et, removed=logs, include_start=True) if et not in logs else set()
+                    verdicts.append(pb not in reach and mir.EXIT not in reach)
+                ok = bool(verdicts) and all(verdicts)
+        ctx.check(ok, "%s:execute-error-logged" % UCI_LOOP, "an Err from execute_command is reported by a logging closure or on the Err edge of a match", b.where(eb),
                   bad_what="the Result of execute_command is not passed to a handler that logs the error")
 
 
